@@ -77,6 +77,11 @@ func vfRandAfts(r *rand.Rand) *aftpb.Afts {
 	case 2:
 		l := []uint64{0, 3, 15, 16, 100, 1048575, 1048576, 1 << 32, 1<<32 + 100}[r.Intn(9)]
 		e := &aftpb.Afts_LabelEntryKey{Label: &aftpb.Afts_LabelEntryKey_LabelUint64{LabelUint64: l}}
+		if r.Intn(12) == 0 {
+			// enumerated labels: only undefined numbers are inside the model
+			e.Label = &aftpb.Afts_LabelEntryKey_LabelOpenconfigmplstypesmplslabelenum{
+				LabelOpenconfigmplstypesmplslabelenum: enums.OpenconfigMplsTypesMplsLabelEnum([]int32{-1, 5, 6, 7, 10, 99, 1<<31 - 1, -1 << 31}[r.Intn(8)])}
+		}
 		if r.Intn(5) != 0 {
 			e.LabelEntry = &aftpb.Afts_LabelEntry{NextHopGroup: u(), NextHopGroupNetworkInstance: s(), EntryMetadata: md()}
 		}
